@@ -89,19 +89,28 @@ deriving Repr, DecidableEq
 /-- `prev_ainfo = state.resolved_ainfos.get(discriminator)` -/
 def prevOf (log : List Act) (d : Nat) : Option Act := log.find? (fun a => a.key == some d)
 
+/-- Lines 449-485.  `first, rest = ainfos[0], ainfos[1:]`.  When the discriminator was executed before
+(`prev_ainfo is not None`, 455-469) `first` is tested against the executed action and `basepath` stays the
+executed action's include path, so `rest` (474-485) is tested against the executed action too; otherwise
+(470-472) `first` is put on the output and becomes the base `rest` is tested against. -/
 def resolveDisc (log g : List Act) (d : Nat) : DiscRes :=
   match g.filter (fun a => a.key == some d) with
   | [] => ⟨false, [], none⟩
   | a :: as =>
     let first := pickFirst a as
     let rest := (a :: as).filter (fun r => r.id != first.id)
-    let restO := (rest.filter (fun r => strictExt first.path r.path)).map (·.id)
-    let restC := rest.any (fun r => !strictExt first.path r.path)
     match prevOf log d with
     | some p =>
-      if strictExt p.path first.path then ⟨restC, first.id :: restO, none⟩
+      let base := p.path
+      let restO := (rest.filter (fun r => strictExt base r.path)).map (·.id)
+      let restC := rest.any (fun r => !strictExt base r.path)
+      if strictExt base first.path then ⟨restC, first.id :: restO, none⟩
       else ⟨true, restO, none⟩
-    | none => ⟨restC, restO, some first.id⟩
+    | none =>
+      let base := first.path
+      let restO := (rest.filter (fun r => strictExt base r.path)).map (·.id)
+      let restC := rest.any (fun r => !strictExt base r.path)
+      ⟨restC, restO, some first.id⟩
 
 /-- keys of `unique` in insertion order -/
 def discsOf (g : List Act) : List Nat := (g.filterMap Act.key).eraseDups
